@@ -34,6 +34,8 @@ import (
 
 	kit "github.com/openbao/openbao/sdk/v2/helper/verifkit"
 	"github.com/openbao/openbao/sdk/v2/logical"
+	"github.com/openbao/openbao/sdk/v2/physical"
+	"github.com/openbao/openbao/sdk/v2/physical/inmem"
 	"github.com/openbao/openbao/v2/internal/helper/namespace"
 )
 
@@ -937,6 +939,32 @@ func c06Judge(r *kit.Result, c *c06Case, caseID string, resp *logical.Response, 
 		viol(e.class, e.what)
 	}
 
+	// ---- candidates for the restart with lease restoration held open (c06Window): token entries the
+	// request left in the store without a lease record, and lease ids the request tried to record whose
+	// record is not in the store. The store is copied now, while nothing is moving and before any of the
+	// usability probes below touches the entries; the restart runs on the copy once the case is judged.
+	var winToks []c06WinTok
+	var winSecs []c06WinSec
+	var winSnap map[string][]byte
+	for _, k := range nt {
+		te := s1.Tokens[k]
+		switch {
+		case s1.leaseForToken(te.ID) != nil || c06NonexpiringRoot(te):
+		case te.NumUses < 0:
+			r.Count("window_skipped_revocation_pending_entry", 1)
+		default:
+			winToks = append(winToks, c06WinTok{ID: te.ID, Accessor: te.Accessor, NSID: te.NamespaceID, Policies: te.Policies, Flow: c06Flow(vr, te)})
+		}
+	}
+	for _, id := range c06LeaseIDsInOps(c.ops) {
+		if s1.leaseByID(id) == nil {
+			winSecs = append(winSecs, c06WinSec{LeaseID: id, NS: vr.NS})
+		}
+	}
+	if len(winToks)+len(winSecs) > 0 {
+		winSnap = v.Probe.Snapshot()
+	}
+
 	// ---- what does the client hold?
 	pay := c06Delivered(resp, err)
 	held := pay
@@ -1152,6 +1180,22 @@ func c06Judge(r *kit.Result, c *c06Case, caseID string, resp *logical.Response, 
 
 	// ---- clean up: everything the case created goes away, through the public API
 	c.cleanup(r, caseID, s1, held, issued)
+
+	// ---- the same store after a restart, inside and outside the lease-restoration window
+	if winSnap != nil {
+		r.Count("window_cases", 1)
+		c06Window(r, v, caseID, c06StoreFrom(winSnap, c.tx), vr.NS, winToks, winSecs, "C06-usable-token-without-lease-after-restart", func(class, what string, extra map[string]any) {
+			w2 := map[string]any{}
+			for k, x := range wit {
+				w2[k] = x
+			}
+			for k, x := range extra {
+				w2[k] = x
+			}
+			c.bad++
+			r.Violate(class, caseID, fmt.Sprintf("[%s] %s, fault: %s, response: %s; restart on the store the request left: %s", caseID, vr.Name, fault, vErrStr(resp, err), what), w2)
+		})
+	}
 	return vd
 }
 
@@ -1222,6 +1266,524 @@ func (c *c06Case) cleanup(r *kit.Result, caseID string, s1 *c06State, held c06Pa
 			}
 		}
 	}
+}
+
+// ------------------------------------------------------------------ the lease-restoration window
+//
+// After an unseal / restart the core serves requests while the expiration manager is still
+// loading the lease records ("restore mode"). The property has no exemption for that window: a
+// token entry whose lease record is not in the store (crash between the token write and the
+// lease write; lease Put of RegisterAuth failed and the clean-up left the entry) must be refused
+// there as well, and a lease id whose record is not in the store must not be renewable.
+//
+// The window is held open deterministically: the restarted core runs on a store whose listing of
+// the lease tree (sys/expire/id/ of any namespace - the first thing lease restoration does) parks
+// every goroutine but the harness' own until the harness releases it. "In the window" is decided
+// by the expiration manager's own flag, read before and after every presentation.
+
+const c06ClassWin = "C06-leaseless-token-usable-during-lease-restore"
+
+const c06LeaseTree = "sys/expire/id/"
+
+type c06Hold struct {
+	mu      sync.Mutex
+	armed   bool
+	exempt  uint64 // goroutine of the harness: its own scans are not held
+	release chan struct{}
+	parked  chan struct{}
+	once    sync.Once
+}
+
+func c06NewHold() *c06Hold {
+	return &c06Hold{armed: true, exempt: kit.GoID(), release: make(chan struct{}), parked: make(chan struct{})}
+}
+
+func (h *c06Hold) wait(prefix string) {
+	if !strings.Contains(prefix, c06LeaseTree) {
+		return
+	}
+	h.mu.Lock()
+	armed := h.armed
+	h.mu.Unlock()
+	if !armed || kit.GoID() == h.exempt {
+		return
+	}
+	h.once.Do(func() { close(h.parked) })
+	<-h.release
+}
+
+func (h *c06Hold) Release() {
+	h.mu.Lock()
+	if h.armed {
+		h.armed = false
+		close(h.release)
+	}
+	h.mu.Unlock()
+}
+
+type c06HoldBackend struct {
+	physical.Backend
+	h *c06Hold
+}
+
+func (b *c06HoldBackend) List(ctx context.Context, prefix string) ([]string, error) {
+	b.h.wait(prefix)
+	return b.Backend.List(ctx, prefix)
+}
+
+func (b *c06HoldBackend) ListPage(ctx context.Context, prefix, after string, limit int) ([]string, error) {
+	b.h.wait(prefix)
+	return b.Backend.ListPage(ctx, prefix, after, limit)
+}
+
+type c06HoldTxBackend struct {
+	*c06HoldBackend
+	txb physical.Transactional
+}
+
+type c06HoldTx struct {
+	physical.Transaction
+	h *c06Hold
+}
+
+func (t *c06HoldTx) List(ctx context.Context, prefix string) ([]string, error) {
+	t.h.wait(prefix)
+	return t.Transaction.List(ctx, prefix)
+}
+
+func (t *c06HoldTx) ListPage(ctx context.Context, prefix, after string, limit int) ([]string, error) {
+	t.h.wait(prefix)
+	return t.Transaction.ListPage(ctx, prefix, after, limit)
+}
+
+func (b *c06HoldTxBackend) BeginTx(ctx context.Context) (physical.Transaction, error) {
+	tx, err := b.txb.BeginTx(ctx)
+	if err != nil {
+		return nil, err
+	}
+	return &c06HoldTx{Transaction: tx, h: b.h}, nil
+}
+
+func (b *c06HoldTxBackend) BeginReadOnlyTx(ctx context.Context) (physical.Transaction, error) {
+	tx, err := b.txb.BeginReadOnlyTx(ctx)
+	if err != nil {
+		return nil, err
+	}
+	return &c06HoldTx{Transaction: tx, h: b.h}, nil
+}
+
+func (h *c06Hold) wrap(inner physical.Backend) physical.Backend {
+	hb := &c06HoldBackend{Backend: inner, h: h}
+	if txb, ok := inner.(physical.Transactional); ok {
+		return &c06HoldTxBackend{c06HoldBackend: hb, txb: txb}
+	}
+	return hb
+}
+
+// c06StoreFrom builds a fresh in-memory store holding exactly the given keys and values.
+func c06StoreFrom(snap map[string][]byte, tx bool) physical.Backend {
+	conf := map[string]string{}
+	if !tx {
+		conf["disable_transactions"] = "true"
+	}
+	in, err := inmem.NewInmem(conf, nil)
+	if err != nil {
+		panic(err)
+	}
+	ctx := context.Background()
+	for k, val := range snap {
+		if err := in.Put(ctx, &physical.Entry{Key: k, Value: append([]byte(nil), val...)}); err != nil {
+			panic(err)
+		}
+	}
+	return in
+}
+
+// c06WinTok is a token entry of the store under test whose id the harness knows (read from the
+// stored record).
+type c06WinTok struct {
+	ID       string
+	Accessor string
+	NSID     string
+	Policies []string
+	Flow     string // login | create | wrapped
+	Control  bool   // delivered to the client and its lease record is durable: the counter-example that the window is not simply refusing everything
+}
+
+// c06WinSec is a lease id of a secret handed out (or about to be) by the request under test.
+type c06WinSec struct {
+	LeaseID string
+	NS      string
+	Control bool // the lease record is durable
+}
+
+type c06WinPending struct {
+	class, what string
+	extra       map[string]any
+}
+
+type c06Present struct {
+	What       string `json:"presented"`
+	Accepted   bool   `json:"accepted"`
+	Response   string `json:"response"`
+	HandlerRan bool   `json:"handler_ran,omitempty"`
+	ModeBefore bool   `json:"restore_mode_before"`
+	ModeAfter  bool   `json:"restore_mode_after"`
+}
+
+func c06IsWrappingPolicies(p []string) bool {
+	return len(p) == 1 && p[0] == "response-wrapping"
+}
+
+// c06PresentToken uses the token the ways a holder could: authenticating a request to the token
+// store, to a secrets mount, renewing it, minting a child, (wrapping token) looking up / unwrapping
+// the response, through the accessor, and the token store's Lookup (what request authentication
+// calls; last, and in every other case also first). The order of the request-level presentations
+// rotates with salt, since on a correct tree the first refusal also removes the entry.
+func c06PresentToken(v2 *vCore, t c06WinTok, ns string, salt uint64, n int) []c06Present {
+	mode := func() bool { return v2.Core.expiration.inRestoreMode() }
+	var out []c06Present
+	do := func(what string, rq vReq, okNeedsData bool) {
+		p := c06Present{What: what, ModeBefore: mode()}
+		mark := v2.Rec.Len()
+		resp, err := v2.Do(rq)
+		p.ModeAfter = mode()
+		p.Response = vErrStr(resp, err)
+		p.Accepted = vOK(resp, err)
+		if okNeedsData && (resp == nil || (resp.Data == nil && resp.Auth == nil)) {
+			p.Accepted = false
+		}
+		for _, e := range v2.Rec.Since(mark) {
+			if e.Kind == "handler" || e.Kind == "existence" {
+				p.HandlerRan, p.Accepted = true, true
+			}
+		}
+		out = append(out, p)
+	}
+	lookup := func() { out = append(out, c06LookupPresent(v2, t)) }
+	var reqs []func()
+	if c06IsWrappingPolicies(t.Policies) {
+		reqs = []func(){
+			func() {
+				do("sys/wrapping/lookup", vReq{Op: logical.UpdateOperation, Path: "sys/wrapping/lookup", NS: ns, Data: map[string]any{"token": t.ID}}, true)
+			},
+			func() {
+				do("sys/wrapping/unwrap", vReq{Op: logical.UpdateOperation, Path: "sys/wrapping/unwrap", Token: t.ID, NS: ns}, true)
+			},
+			func() {
+				do("cubbyhole read", vReq{Op: logical.ReadOperation, Path: "cubbyhole/response", Token: t.ID, NS: ns}, false)
+			},
+		}
+	} else {
+		reqs = []func(){
+			func() {
+				do("auth/token/lookup-self", vReq{Op: logical.ReadOperation, Path: "auth/token/lookup-self", Token: t.ID, NS: ns}, true)
+			},
+			func() {
+				do("read on a secrets mount", vReq{Op: logical.ReadOperation, Path: fmt.Sprintf("c06rec/data/win%d", n), Token: t.ID, NS: ns}, false)
+			},
+			func() {
+				do("auth/token/renew-self", vReq{Op: logical.UpdateOperation, Path: "auth/token/renew-self", Token: t.ID, NS: ns}, true)
+			},
+			func() {
+				do("auth/token/create (child)", vReq{Op: logical.UpdateOperation, Path: "auth/token/create", Token: t.ID, NS: ns, Data: map[string]any{"policies": []string{"default"}, "ttl": "5m"}}, true)
+			},
+		}
+	}
+	if salt%2 == 0 {
+		// every other case asks the token store first: a request can authenticate, fail for another reason
+		// (nothing to unwrap yet) and still use the token up
+		lookup()
+	}
+	for i := range reqs {
+		reqs[(int((salt/2)%uint64(len(reqs)))+i)%len(reqs)]()
+	}
+	if t.Accessor != "" && !c06IsWrappingPolicies(t.Policies) {
+		do("auth/token/renew-accessor", vReq{Op: logical.UpdateOperation, Path: "auth/token/renew-accessor", Token: v2.Root, NS: ns, Data: map[string]any{"accessor": t.Accessor}}, true)
+	}
+	lookup()
+	return out
+}
+
+// c06LookupPresent is the token store's own answer to "does this id authenticate" (what request
+// authentication calls).
+func c06LookupPresent(v2 *vCore, t c06WinTok) c06Present {
+	mode := func() bool { return v2.Core.expiration.inRestoreMode() }
+	p := c06Present{What: "TokenStore.Lookup", ModeBefore: mode()}
+	ctx := namespace.RootContext(context.Background())
+	for _, nn := range c06Namespaces(v2) {
+		if nn.ID == t.NSID {
+			ctx = namespace.ContextWithNamespace(context.Background(), nn)
+		}
+	}
+	te, err := v2.Core.tokenStore.Lookup(ctx, t.ID)
+	p.ModeAfter = mode()
+	p.Accepted = err == nil && te != nil
+	switch {
+	case err != nil:
+		p.Response = "err:" + err.Error()
+	case te == nil:
+		p.Response = "no such token"
+	default:
+		p.Response = "entry returned"
+	}
+	return p
+}
+
+func c06NSPath(v *vCore, nsID, def string) string {
+	for _, nn := range c06Namespaces(v) {
+		if nn.ID == nsID {
+			return nn.Path
+		}
+	}
+	return def
+}
+
+// c06Window boots a core (same seal) on store with lease restoration held open, presents the
+// tokens / lease ids while the expiration manager reports restore mode, releases the restoration,
+// waits (bounded) for it to finish and presents them again. afterClass is the class of a token
+// that is usable outside the window (too); c06ClassWin is assigned only to a token that is accepted
+// while the restore-mode flag is on and refused once restoration has finished.
+func c06Window(r *kit.Result, v *vCore, caseID string, store physical.Backend, defNS string, toks []c06WinTok, secs []c06WinSec, afterClass string, viol func(class, what string, extra map[string]any)) {
+	h := c06NewHold()
+	phys, _ := kit.NewProbe(h.wrap(store))
+	v2, err := v.RestartOn(phys)
+	defer func() {
+		h.Release()
+		if v2 != nil {
+			v2.Close()
+			delete(c06Stuck, v2)
+		}
+	}()
+	if err != nil {
+		r.Count("window_restart_failed", 1)
+		r.Note("%s: restart with held lease restoration failed: %v", caseID, err)
+		return
+	}
+	r.Count("window_restarts", 1)
+	parked := false
+	select {
+	case <-h.parked:
+		parked = true
+	case <-time.After(10 * time.Second):
+	}
+	mode := func() bool { return v2.Core.expiration.inRestoreMode() }
+	inWin := parked && mode()
+	if inWin {
+		r.Count("window_restarts_in_restore_mode", 1)
+	} else {
+		// not a verdict and not inconclusive: the case is judged outside the window only
+		r.Count("window_restore_mode_not_observed", 1)
+	}
+	salt := c06Hash(caseID)
+	pendingWin := map[string]c06WinPending{}
+	flush := func() {
+		for id, p := range pendingWin {
+			viol(p.class, p.what, p.extra)
+			delete(pendingWin, id)
+		}
+	}
+	defer flush()
+	if inWin {
+		sW, serr := c06Scan(v2)
+		if serr != nil {
+			r.Count("window_scan_failed", 1)
+			inWin = false
+		}
+		for i, t := range toks {
+			if !inWin {
+				break
+			}
+			ns := c06NSPath(v2, t.NSID, defNS)
+			te := sW.tokenByAccessor(t.Accessor)
+			if te == nil || te.ID != t.ID {
+				r.Count("window_token_entry_not_in_store", 1)
+				continue
+			}
+			hasLease := sW.leaseForToken(t.ID) != nil
+			if hasLease != t.Control {
+				r.Count("window_token_lease_state_changed", 1)
+				continue
+			}
+			ps := c06PresentToken(v2, t, ns, salt+uint64(i), i)
+			allIn := true
+			var acc []string
+			handler := false
+			for _, p := range ps {
+				if !p.ModeBefore || !p.ModeAfter {
+					allIn = false
+				}
+				if p.Accepted {
+					acc = append(acc, p.What)
+				}
+				handler = handler || p.HandlerRan
+			}
+			if !allIn {
+				r.Count("window_closed_during_presentation", 1)
+			}
+			if t.Control {
+				// a properly leased, delivered token: expected to work while leases are being restored
+				if len(acc) > 0 {
+					r.Count("window_control_leased_token_accepted", 1)
+				} else {
+					r.Count("window_control_leased_token_refused", 1)
+					if r.Get("window_control_leased_token_refused") <= 4 {
+						r.Note("%s: a delivered token with a durable lease is refused while leases are being restored (%s)", caseID, ps[0].Response)
+					}
+				}
+				continue
+			}
+			if allIn {
+				r.Count("window_leaseless_tokens_presented", 1)
+				r.Count("window_leaseless_tokens_presented:"+t.Flow, 1)
+				r.Count("window_presentations", len(ps))
+			}
+			if len(acc) == 0 {
+				if allIn {
+					r.Count("window_leaseless_token_refused", 1)
+					if r.Get("window_samples") < 3 {
+						r.Count("window_samples", 1)
+						r.Sample(map[string]any{"case": caseID, "lease_restoration": "held open, restore mode on", "token_flow": t.Flow, "token_policies": t.Policies, "presentations": ps})
+					}
+				}
+				continue
+			}
+			class, where := c06ClassWin, "while the expiration manager is restoring leases after the restart"
+			if !allIn {
+				class, where = afterClass, "after the restart"
+			}
+			what := fmt.Sprintf("token entry (flow %s, policies %v) has no lease record in the store and is accepted %s: %s", t.Flow, t.Policies, where, strings.Join(acc, ", "))
+			if handler {
+				what += "; a backend handler ran for it"
+			}
+			r.Count("window_leaseless_token_accepted:"+t.Flow, 1)
+			// classified once it is known whether the token is refused when restoration has finished
+			pendingWin[t.ID] = c06WinPending{class: class, what: what, extra: map[string]any{"presentations": ps, "token_flow": t.Flow}}
+		}
+		for _, s := range secs {
+			if !inWin {
+				break
+			}
+			durable := sW.leaseByID(s.LeaseID) != nil
+			if durable != s.Control {
+				r.Count("window_secret_lease_state_changed", 1)
+				continue
+			}
+			m0 := mode()
+			rr, e1 := v2.Do(vReq{Op: logical.UpdateOperation, Path: "sys/leases/lookup", Token: v2.Root, NS: s.NS, Data: map[string]any{"lease_id": s.LeaseID}})
+			rn, e2 := v2.Do(vReq{Op: logical.UpdateOperation, Path: "sys/leases/renew", Token: v2.Root, NS: s.NS, Data: map[string]any{"lease_id": s.LeaseID}})
+			m1 := mode()
+			ok := (vOK(rr, e1) && rr != nil) || (vOK(rn, e2) && rn != nil)
+			switch {
+			case s.Control && ok:
+				r.Count("window_control_durable_lease_renewable", 1)
+			case s.Control:
+				r.Count("window_control_durable_lease_refused", 1)
+			case !m0 || !m1:
+				r.Count("window_closed_during_presentation", 1)
+			case ok:
+				viol("C06-leaseless-secret-renewable-during-lease-restore", fmt.Sprintf("lease id %s has no record in the store and sys/leases/lookup / renew accept it while leases are being restored (lookup: %s, renew: %s)", s.LeaseID, vErrStr(rr, e1), vErrStr(rn, e2)), nil)
+			default:
+				r.Count("window_leaseless_secret_renew_refused", 1)
+			}
+		}
+	}
+	h.Release()
+	if !c06WaitRestored(v2) {
+		r.Inconc("%s: lease restoration (released) did not finish within the wait bound", caseID)
+		return
+	}
+	// outside the window, as today: nothing without a lease record is usable
+	for _, t := range toks {
+		if t.Control {
+			continue
+		}
+		ns := c06NSPath(v2, t.NSID, defNS)
+		usable := v2.TokenUsable(t.ID, ns)
+		if !usable && c06IsWrappingPolicies(t.Policies) {
+			rr, e2 := v2.Do(vReq{Op: logical.UpdateOperation, Path: "sys/wrapping/lookup", NS: ns, Data: map[string]any{"token": t.ID}})
+			usable = vOK(rr, e2) && rr != nil && rr.Data != nil
+		}
+		if !usable && t.Accessor != "" {
+			rr, e2 := v2.Do(vReq{Op: logical.UpdateOperation, Path: "auth/token/renew-accessor", Token: v2.Root, NS: ns, Data: map[string]any{"accessor": t.Accessor}})
+			usable = vOK(rr, e2) && rr != nil
+		}
+		if usable {
+			// usable outside the window as well: the general class, not the window's
+			what, extra := fmt.Sprintf("token entry (flow %s, policies %v) has no lease record in the store and is usable after the restart, lease restoration finished", t.Flow, t.Policies), map[string]any(nil)
+			if p, ok := pendingWin[t.ID]; ok {
+				what, extra = what+" (and inside the restoration window: "+p.what+")", p.extra
+				delete(pendingWin, t.ID)
+			}
+			viol(afterClass, what, extra)
+		} else {
+			r.Count("window_released_leaseless_token_refused", 1)
+		}
+	}
+	for _, s := range secs {
+		if s.Control {
+			continue
+		}
+		rn, e2 := v2.Do(vReq{Op: logical.UpdateOperation, Path: "sys/leases/renew", Token: v2.Root, NS: s.NS, Data: map[string]any{"lease_id": s.LeaseID}})
+		if vOK(rn, e2) && rn != nil {
+			viol("C06-leaseless-secret-renewable-after-restart", fmt.Sprintf("lease id %s has no record in the store and is renewable after the restart (%s)", s.LeaseID, vErrStr(rn, e2)), nil)
+		} else {
+			r.Count("window_released_leaseless_secret_refused", 1)
+		}
+	}
+}
+
+// c06LeaseIDsInOps returns the lease ids of secrets (not of tokens) whose record the request tried
+// to write, read off the storage keys of its operations.
+func c06LeaseIDsInOps(ops []kit.Event) []string {
+	seen := map[string]bool{}
+	var out []string
+	for _, e := range ops {
+		if e.Op != "put" {
+			continue
+		}
+		i := strings.Index(e.Key, c06LeaseTree)
+		if i < 0 {
+			continue
+		}
+		id := e.Key[i+len(c06LeaseTree):]
+		if !strings.HasPrefix(id, "c06rec/lease/") && !strings.HasPrefix(id, "c06ctx/lease/") {
+			continue
+		}
+		if c06SaltedTail(id) {
+			// the lease of a wrapping token is filed under the path of the wrapped request too; its last
+			// element is the salted token id ("h" + 64 hex digits), a secret's is a random suffix
+			continue
+		}
+		if !seen[id] {
+			seen[id] = true
+			out = append(out, id)
+		}
+	}
+	return out
+}
+
+func c06SaltedTail(leaseID string) bool {
+	tail := leaseID[strings.LastIndex(leaseID, "/")+1:]
+	if i := strings.Index(tail, "."); i >= 0 {
+		tail = tail[:i] // namespace suffix
+	}
+	if len(tail) != 65 || tail[0] != 'h' {
+		return false
+	}
+	for _, ch := range tail[1:] {
+		if !(ch >= '0' && ch <= '9') && !(ch >= 'a' && ch <= 'f') {
+			return false
+		}
+	}
+	return true
+}
+
+func c06Flow(vr c06Variant, te *logical.TokenEntry) string {
+	if c06IsWrappingPolicies(te.Policies) {
+		return "wrapped"
+	}
+	return vr.Kind
 }
 
 // ------------------------------------------------------------------ fault enumeration
@@ -1310,6 +1872,13 @@ func TestVerif_C06_Faults(t *testing.T) {
 	r.Require("index_effective_checks", 20)
 	r.Require("wrapped_unwrapped_checks", 10)
 	r.Require("lease_revocations_reaching_backend", 20)
+	// restart on the store a faulted request left, lease restoration held open (c06Window)
+	r.Require("window_restarts_in_restore_mode", 80)
+	r.Require("window_leaseless_tokens_presented", 60)
+	r.Require("window_leaseless_tokens_presented:login", 8)
+	r.Require("window_leaseless_tokens_presented:create", 20)
+	r.Require("window_leaseless_tokens_presented:wrapped", 30)
+	r.Require("window_leaseless_secret_renew_refused", 30)
 }
 
 func c06FaultVariant(t *testing.T, v *vCore, r *kit.Result, rng *kit.Rand, vr c06Variant, tx bool, round int) {
@@ -1515,6 +2084,14 @@ func TestVerif_C06_Crash(t *testing.T) {
 	r.Require("crash_durable_lease_revocations", 10)
 	r.Require("crash_full_journal_delivery_checks", 10)
 	r.Require("crash_tracked_lease_checks", 200)
+	// the same write prefixes restarted with lease restoration held open (c06Window)
+	r.Require("window_restarts_in_restore_mode", 30)
+	r.Require("window_leaseless_tokens_presented", 20)
+	r.Require("window_leaseless_tokens_presented:login", 2)
+	r.Require("window_leaseless_tokens_presented:create", 3)
+	r.Require("window_leaseless_tokens_presented:wrapped", 10)
+	r.Require("window_control_leased_token_accepted", 5)
+	r.Require("window_leaseless_secret_renew_refused", 4)
 }
 
 func c06CrashVariant(t *testing.T, v *vCore, r *kit.Result, rng *kit.Rand, vr c06Variant, tx bool) {
@@ -1643,6 +2220,8 @@ func c06CrashVariant(t *testing.T, v *vCore, r *kit.Result, rng *kit.Rand, vr c0
 			}
 		}
 		// tokens left by the interrupted request
+		var winToks []c06WinTok
+		var winSecs []c06WinSec
 		for _, key := range nt {
 			te := sk.Tokens[key]
 			if l := sk.leaseForToken(te.ID); l != nil {
@@ -1650,6 +2229,9 @@ func c06CrashVariant(t *testing.T, v *vCore, r *kit.Result, rng *kit.Rand, vr c0
 				continue
 			}
 			r.Count("crash_token_entry_before_lease", 1)
+			if !c06NonexpiringRoot(te) && te.NumUses >= 0 {
+				winToks = append(winToks, c06WinTok{ID: te.ID, Accessor: te.Accessor, NSID: te.NamespaceID, Policies: te.Policies, Flow: c06Flow(vr, te)})
+			}
 			usable := v2.TokenUsable(te.ID, vr.NS)
 			switch {
 			case usable && c06NonexpiringRoot(te):
@@ -1671,6 +2253,10 @@ func c06CrashVariant(t *testing.T, v *vCore, r *kit.Result, rng *kit.Rand, vr c0
 			ls := sk.leasesForSecret(s)
 			if len(ls) == 0 {
 				r.Count("crash_secret_issued_no_lease_written_yet", 1)
+				// the lease id is known from the complete run
+				for _, l := range s1.leasesForSecret(s) {
+					winSecs = append(winSecs, c06WinSec{LeaseID: l.LeaseID, NS: l.NS})
+				}
 				continue
 			}
 			if len(ls) > 1 {
@@ -1692,6 +2278,35 @@ func c06CrashVariant(t *testing.T, v *vCore, r *kit.Result, rng *kit.Rand, vr c0
 			}
 		}
 		v2.Close()
+		// the same write prefix once more, restarted with lease restoration held open: what has no lease record
+		// must be refused inside the restoration window too. At the full journal what the client received (with
+		// its durable lease) is presented as the control.
+		if k == len(j) {
+			switch {
+			case held.How == "token" && !held.Batch && heldInternal != "" && sk.leaseForToken(heldInternal) != nil:
+				if te := sk.tokenByAccessor(held.Accessor); te != nil {
+					winToks = append(winToks, c06WinTok{ID: te.ID, Accessor: te.Accessor, NSID: te.NamespaceID, Policies: te.Policies, Flow: c06Flow(vr, te), Control: true})
+				}
+			case held.How == "secret":
+				if l := sk.leaseByID(held.LeaseID); l != nil {
+					winSecs = append(winSecs, c06WinSec{LeaseID: l.LeaseID, NS: l.NS, Control: true})
+				}
+			}
+		}
+		if len(winToks)+len(winSecs) > 0 {
+			r.Count("window_cases", 1)
+			phys2 := v.Probe.Materialise(k, tx)
+			c06Window(r, v, caseID, phys2, vr.NS, winToks, winSecs, "C06-crash-usable-token-without-lease", func(class, what string, extra map[string]any) {
+				w2 := map[string]any{}
+				for key, x := range wit {
+					w2[key] = x
+				}
+				for key, x := range extra {
+					w2[key] = x
+				}
+				r.Violate(class, caseID, fmt.Sprintf("[%s] %s, crash after %d of %d writes: %s", caseID, vr.Name, k, len(j), what), w2)
+			})
+		}
 	}
 	if r.Get("samples_taken") < 6 {
 		r.Count("samples_taken", 1)
